@@ -35,6 +35,11 @@ type loopInfo struct {
 	blocks  map[*ssa.BasicBlock]bool
 	ordinal int
 	backs   []*ssa.BasicBlock // predecessors along back edges
+	frameVars map[string]bool
+}
+
+func isHeapVarName(n string) bool {
+	return strings.HasPrefix(n, "F:") || strings.HasPrefix(n, "M:") || strings.HasPrefix(n, "G:") || strings.HasPrefix(n, "MH:") || strings.HasPrefix(n, "MV:")
 }
 
 type FuncEnc struct {
@@ -82,6 +87,7 @@ type FuncEnc struct {
 	trivial      int
 	relevant     map[string]bool
 	axioms       []axiomLine
+	frameLocs    []assignLoc
 }
 
 func (fe *FuncEnc) sorts() *Sorts { return fe.eng.sorts }
@@ -162,6 +168,7 @@ func (fe *FuncEnc) reset() {
 	fe.defers = nil
 	fe.notes = nil
 	fe.axioms = nil
+	fe.frameLocs = nil
 }
 
 // Encode generates all obligations of the function.
@@ -548,6 +555,48 @@ func (fe *FuncEnc) enterLoop(li *loopInfo, ins []*State) *State {
 		}
 	}
 	fe.bumpAllocTop(st)
+	// derived invariants (valid by construction, assumed without obligations):
+	// a counter that starts at v and is only ever incremented by a non-negative
+	// constant stays >= v.
+	for _, phi := range phis {
+		if !isInt(phi.Type()) {
+			continue
+		}
+		mono := true
+		for i, p := range b.Preds {
+			if !fe.isBackEdge(p, b) {
+				continue
+			}
+			bo, ok := phi.Edges[i].(*ssa.BinOp)
+			if !ok || bo.Op != token.ADD {
+				mono = false
+				break
+			}
+			c, isC := bo.Y.(*ssa.Const)
+			if bo.X != ssa.Value(phi) || !isC || c.Value == nil || constant.Sign(c.Value) < 0 {
+				mono = false
+				break
+			}
+		}
+		if mono {
+			fe.assume(st, fmt.Sprintf("(>= %s %s)", fe.vals[phi], entryVals[phi]))
+		}
+	}
+	// loop frame: cells outside the function's assigns clause keep their entry values
+	if fe.c != nil && fe.c.HasAssigns && !all {
+		for _, n := range sortedKeys(written) {
+			if !isHeapVarName(n) || fe.heapSorts[n] == "" {
+				continue
+			}
+			if f := fe.frameFormula(n, fe.heapGet(pre, n, fe.heapSorts[n])); f != "" {
+				fe.oblige(pre, fmt.Sprintf("loopframe%d", li.ordinal), n+".entry", f, b.Instrs[0].Pos(), "loop frame holds on entry for "+n)
+			}
+			if f := fe.frameFormula(n, st.heap[n]); f != "" {
+				fe.assume(st, f)
+			}
+		}
+		li.frameVars = written
+	}
 	if spec != nil {
 		env := fe.envAt(st, b)
 		for _, inv := range spec.Invs {
@@ -567,10 +616,24 @@ func (fe *FuncEnc) backEdge(li *loopInfo, from *ssa.BasicBlock, st *State) {
 	if fe.c != nil {
 		spec = fe.c.Loops[li.ordinal]
 	}
+	b := li.header
+	{
+		pos := from.Instrs[len(from.Instrs)-1].Pos()
+		if !pos.IsValid() {
+			pos = b.Instrs[0].Pos()
+		}
+		for _, n := range sortedKeys(li.frameVars) {
+			if !isHeapVarName(n) || fe.heapSorts[n] == "" {
+				continue
+			}
+			if f := fe.frameFormula(n, fe.heapGet(st, n, fe.heapSorts[n])); f != "" {
+				fe.oblige(st, fmt.Sprintf("loopframe%d", li.ordinal), n+".preserved", f, pos, "loop frame is preserved for "+n)
+			}
+		}
+	}
 	if spec == nil {
 		return
 	}
-	b := li.header
 	over := map[*ssa.Phi]string{}
 	for _, insn := range b.Instrs {
 		phi, ok := insn.(*ssa.Phi)
